@@ -14,6 +14,7 @@ import (
 	"net"
 	"os"
 	"runtime"
+	"sync/atomic"
 	"syscall"
 	"time"
 	"unsafe"
@@ -278,9 +279,16 @@ func (p *poller) readWriteLoop() {
 						}
 					}
 
+					closeByReadTask := false
 					if ev.Events&epollEventsRead != 0 {
 						if g.onRead == nil {
 							if asyncReadEnabled {
+								if ev.Events&epollEventsError != 0 {
+									// The read task closes the connection after it
+									// has read what the peer sent before hanging up.
+									atomic.StoreInt32(&c.hup, 1)
+									closeByReadTask = true
+								}
 								c.AsyncRead()
 							} else {
 								maxReadTimes := g.MaxConnReadTimesPerEventLoop
@@ -325,7 +333,7 @@ func (p *poller) readWriteLoop() {
 						c.ResetPollerEvent()
 					}
 
-					if ev.Events&epollEventsError != 0 {
+					if ev.Events&epollEventsError != 0 && !closeByReadTask {
 						_ = c.closeWithError(io.EOF)
 						continue
 					}
